@@ -30,6 +30,9 @@ func Validate(n *ast.MsgNode) error {
 			bodies = []ast.ParentNode{n.Cases[0].Body, n.Default}
 		}
 	}
+	if len(bodies) == 2 && (Msgid(n) == "" || MsgidPlural(n) == "") {
+		return fmt.Errorf("a plural with an empty case can not be written to a PO file (empty msgid or msgid_plural): %v", n)
+	}
 	for _, body := range bodies {
 		if err := readsBack(body); err != nil {
 			return err
